@@ -177,3 +177,6 @@ func VerifC12_HostilePeer() {
 	vAssert(<-doneCh == nil, "C12: the client keeps working after a misbehaving reply")
 	vReach("c12.hostile")
 }
+
+// larger configuration, explored delay-bounded (see check spec)
+func VerifC12_Faults3() { vC12Faults(3) }
